@@ -231,6 +231,23 @@ theorem delivery_order {U : Universe} {B : Header → Prop} {Good : State → Pr
   obtain ⟨h1, h2, h3, h4, _, _⟩ := BytomModel.Lemmas.NodeDelivery.delivery_order hA hI0 hG0 he hv hnd hfresh hclosed hdefs hσ
   exact ⟨h1, h2, h3, h4⟩
 
+/-- **delivery of an arbitrary block set** (not parent-closed), acceptance as a hypothesis: whatever
+    the order, the connected blocks are exactly those all of whose ancestors were delivered
+    (`Rooted`), the others — and only they — wait in the pool, and no orphan whose parent is stored
+    is left behind -/
+theorem delivery_order_general {U : Universe} {B : Header → Prop} {Good : State → Prop} (hA : Accepting B Good)
+    {s0 : State} (hI0 : Inv U s0) (hG0 : Good s0) (he : s0.orphans = []) {bs : List Header}
+    (hv : ∀ b ∈ bs, B b ∧ Valid U b) (hnd : (bs.map (·.id)).Nodup) (hfresh : ∀ b ∈ bs, ¬ stored s0 b.id)
+    (hdefs : bs.length ≤ s0.defs.length) {σ : List Header} (hσ : σ.Perm bs) :
+    (∀ b ∈ bs, stored (run s0 (σ.map .deliver)) b.id ↔ Rooted s0 bs b) ∧
+    (∀ b ∈ bs, b ∈ (run s0 (σ.map .deliver)).orphans ↔ ¬ Rooted s0 bs b) ∧
+    (∀ o ∈ (run s0 (σ.map .deliver)).orphans, o ∈ bs ∧ ¬ stored (run s0 (σ.map .deliver)) o.parent) := by
+  have hrun : run s0 (σ.map .deliver) = σ.foldl deliver s0 := by
+    unfold run; rw [List.foldl_map]; rfl
+  rw [hrun]
+  obtain ⟨h1, h2, h3, h4, _⟩ := delivery_general hA hI0 hG0 he hv hnd hfresh hdefs hσ
+  exact ⟨h1, h2, fun o ho => ⟨h3 o ho, h4 o ho⟩⟩
+
 /-- the full statement for histories from the initial state: ANY configuration, blocks may carry
     header sup links -/
 def c12_full : Prop :=
@@ -394,6 +411,12 @@ example : let s' := run ws0 ([p2, w3, p4, w5, w1].map .deliver)
   c12_partial wU wcfg wg pbs [p2, w3, p4, w5, w1] rfl (fun b hb => (pbs_plain b hb).sup) (by decide) ⟨rfl, rfl⟩ rfl
     (fun b hb => (pbs_plain b hb).valid) (by decide) (by decide) (by decide)
     (List.perm_append_comm (l₁ := [p2, w3, p4, w5]) (l₂ := [w1]))
+
+/-- `delivery_order_general`: 1, 3, 5 delivered without 2 — 3 is not rooted and waits, 1 and 5 connect -/
+example : let s' := run ws0 ([w3, w5, w1].map .deliver)
+    s'.orphans = [w3] ∧ s'.storeOrder = [0, 1, 5] ∧ ¬ stored s' w3.parent := by
+  unfold stored
+  decide +kernel
 
 /-- `connection_accepting` / `noFin_saveBlock_accepts`: `wpool` is in the no-finalization class -/
 example : NoFin wU ws0 ∧ PlainBlock wU w1 ∧ stored ws0 w1.parent :=
